@@ -23,6 +23,9 @@ EXPLANATION += (
     ' ADDED: C13.2 now follows segyio.line.sanitize_slice: an absent or positive step runs towards larger line numbers (default start min(keys), stop max(keys)+1), a negative step the other way (max(keys), min(keys)-1), and the default step is |increment|; first / last key are extremes only on an ascending axis. C13.5: slice components are compared with None, never tested for truth. C13.6: per concrete accessor class, every value handed to values_function is in the index space (ordinal vs line number / coordinate) that the bound reader method takes, including iteration over keys_object.'
 )
 EXPLANATION += (
+    ' ADDED (round 4): C13.7 - header[] and attributes() read stored array j where the converters wrote it: bytes per array of both write_headers = reader stride for the stamped version, and offset of array j = DISK*(header blocks + data blocks) + j*stride (rules C03.5 / C03.11 restricted to converters and reader). C13.2 is decided by abstract execution of the slice branch over 12 scenarios; C13.4 / C13.6 follow setter helpers and decide negative-ordinal normalisation from path facts.'
+)
+EXPLANATION += (
     ' C13.4 also: the number -> ordinal translation is exact (rule of C14.4), so line numbers segyio rejects are rejected.'
 )
 ASSUMPTIONS = ['segyio yields all lines for f.iline[:] whatever the sign of the line increment', 'names denote what they say']
